@@ -129,3 +129,97 @@ func H07err() {
 	}
 	check(len(c.Dir) == 4, "nothing else was added")
 }
+
+// H07chain: a chain of d augments, each onto the node the previous one adds, all declared in
+// one module (or alternating between two modules) in a symbolically chosen declaration order
+// (top-down, bottom-up, inside-out), with bystander modules loaded: every link must be applied.
+func H07chain() {
+	d := param("d")
+	two := symBool()
+	order := symChoice(3)
+	augs := make([]string, d)
+	path := "/mm:c"
+	for i := 0; i < d; i++ {
+		name := "n" + string([]byte{'1' + byte(i)})
+		mod := "a"
+		if two && i%2 == 1 {
+			mod = "b"
+		}
+		_ = mod
+		augs[i] = "augment " + path + " { container " + name + " { leaf l { type string; } } } "
+		pre := "a"
+		if two && i%2 == 1 {
+			pre = "b"
+		}
+		path += "/" + pre + ":" + name
+	}
+	idx := make([]int, d)
+	for i := range idx {
+		switch order {
+		case 0:
+			idx[i] = i
+		case 1:
+			idx[i] = d - 1 - i
+		default:
+			idx[i] = (i*2 + 1) % d // for odd d a permutation; for even d fall back to bottom-up
+			if d%2 == 0 {
+				idx[i] = d - 1 - i
+			}
+		}
+	}
+	aBody, bBody := "", ""
+	for _, k := range idx {
+		if two && k%2 == 1 {
+			bBody += augs[k]
+		} else {
+			aBody += augs[k]
+		}
+	}
+	// spell the prefixes from each author's point of view
+	fix := func(body, self string) string {
+		out := ""
+		for i := 0; i < len(body); i++ {
+			if i+2 <= len(body) && body[i] == '/' && (body[i+1] == 'a' || body[i+1] == 'b') && i+2 < len(body) && body[i+2] == ':' {
+				if string([]byte{body[i+1]}) == self {
+					out += "/" + self + ":"
+				} else {
+					out += "/o:"
+				}
+				i += 2
+				continue
+			}
+			out += string([]byte{body[i]})
+		}
+		return out
+	}
+	m := `module m { namespace "urn:m"; prefix m; container c { leaf base { type string; } } }`
+	a := `module a { namespace "urn:a"; prefix a; import m { prefix mm; } import b { prefix o; } ` + fix(aBody, "a") + `}`
+	b := `module b { namespace "urn:b"; prefix b; import m { prefix mm; } import a { prefix o; } ` + fix(bBody, "b") + `}`
+	by1 := `module by1 { namespace "urn:by1"; prefix by1; leaf z { type string; } }`
+	by2 := `module by2 { namespace "urn:by2"; prefix by2; import m { prefix mm; } leaf z { type string; } }`
+	note(a + b)
+	texts := h07Perm([]string{m, a, b, by1, by2}, symChoice(3))
+	ms, lerrs := hLoad(texts...)
+	check(len(lerrs) == 0, "modules parse")
+	errs := ms.Process()
+	check(len(errs) == 0, "every augment whose target exists (after the other augments are applied) is applied, in any declaration and load order")
+	if len(errs) > 0 {
+		return
+	}
+	reach("processed")
+	hWF(ms)
+	e := ToEntry(ms.Modules["m"]).Dir["c"]
+	for i := 0; i < d; i++ {
+		name := "n" + string([]byte{'1' + byte(i)})
+		check(e != nil && e.Dir[name] != nil, "every link of the chain is present")
+		if e == nil || e.Dir[name] == nil {
+			return
+		}
+		e = e.Dir[name]
+		want := "urn:a"
+		if two && i%2 == 1 {
+			want = "urn:b"
+		}
+		check(e.Namespace().Name == want, "each link belongs to the module that wrote it")
+	}
+}
